@@ -1086,3 +1086,35 @@ def tv_resize(interp, img, size, interpolation=None, max_size=None, antialias=Tr
     out = STensor(shape, FLOAT if img.dtype == FLOAT else img.dtype, fn=(lambda idx: V.finite_real(f(*[V.zint(i) for i in idx]))) if img.dtype == FLOAT else (lambda idx: z3.ToInt(f(*[V.zint(i) for i in idx]))), kind=img.kind)
     out.resize_of = (img, img.shape[-2], img.shape[-1], h, w)
     return out
+
+
+@lib("torch.nn.functional.max_pool2d")
+def F_max_pool2d(interp, x, kernel_size, stride=None, padding=0, dilation=1, ceil_mode=False, return_indices=False):
+    """Docs: maximum over each kernel window; implicit negative-infinity padding."""
+    if dilation != 1 or ceil_mode or return_indices:
+        raise Unsupported("max_pool2d options")
+    kh, kw = (kernel_size, kernel_size) if isinstance(kernel_size, int) else tuple(kernel_size)
+    stride = kernel_size if stride is None else stride
+    sh, sw = (stride, stride) if isinstance(stride, int) else tuple(stride)
+    ph, pw = (padding, padding) if isinstance(padding, int) else tuple(padding)
+    if x.rank not in (3, 4):
+        raise PyExc("RuntimeError", ("max_pool2d expects a 3D or 4D input",))
+    H, W = x.shape[-2], x.shape[-1]
+    oh = V.simplify_scalar(V.i_add(V.i_floordiv(V.i_sub(V.i_add(H, 2 * ph), kh), sh), 1))
+    ow = V.simplify_scalar(V.i_add(V.i_floordiv(V.i_sub(V.i_add(W, 2 * pw), kw), sw), 1))
+    src = x.reader()
+    ninf = float("-inf")
+
+    def fn(idx):
+        lead, i, j = idx[:-2], idx[-2], idx[-1]
+        acc = None
+        for u in range(kh):
+            for v in range(kw):
+                ii = V.i_add(V.i_mul(i, sh), u - ph)
+                jj = V.i_add(V.i_mul(j, sw), v - pw)
+                inb = V.b_and(V.i_le(0, ii), V.i_lt(ii, H), V.i_le(0, jj), V.i_lt(jj, W))
+                val = src(lead + [ii, jj]) if inb is True else (ninf if inb is False else V.f_ite(V.zbool(inb), src(lead + [ii, jj]), ninf))
+                acc = val if acc is None else V.f_max(acc, val)
+        return acc
+
+    return STensor(list(x.shape[:-2]) + [oh, ow], FLOAT, fn=fn, kind=x.kind)
